@@ -22,7 +22,11 @@ VERIF = os.path.dirname(os.path.dirname(os.path.abspath(__file__)))
 REPO = os.environ.get('VERIF_REPO', '/repo')
 LEAN = os.path.join(VERIF, 'lean')
 GEN = os.path.join(LEAN, 'Xrfmv', 'Gen')
-DRIVER_BIN = os.path.join(LEAN, '.lake', 'build', 'bin', 'driver')
+
+
+def driver_bin(prop):
+    return os.path.join(LEAN, '.lake', 'build', 'bin', f'driver_{prop.lower()}')
+
 EVID = os.path.join(VERIF, 'evidence')
 REPLAYS = os.path.join(EVID, 'replays')
 KNOWN = os.path.join(VERIF, 'known_findings.json')
@@ -90,9 +94,9 @@ def lean_errors(log, limit=30):
     return keep[:limit]
 
 
-def build_driver():
+def build_driver(prop):
     with lean_lock():
-        rc, log = _run(['lake', 'build', 'driver'])
+        rc, log = _run(['lake', 'build', f'driver_{prop.lower()}'])
     return rc == 0, log
 
 
@@ -154,10 +158,11 @@ def check_proofs(prop):
 class Driver:
     """Compiled Lean model driver. `ask` is synchronous; `batch` sends many lines at once."""
 
-    def __init__(self):
-        if not os.path.exists(DRIVER_BIN):
-            raise RuntimeError('driver binary missing: run ./check --setup')
-        self.p = subprocess.Popen([DRIVER_BIN], stdin=subprocess.PIPE, stdout=subprocess.PIPE, text=True, bufsize=1)
+    def __init__(self, prop):
+        b = driver_bin(prop)
+        if not os.path.exists(b):
+            raise RuntimeError(f'driver binary {b} missing: run ./check --setup')
+        self.p = subprocess.Popen([b], stdin=subprocess.PIPE, stdout=subprocess.PIPE, text=True, bufsize=1)
 
     def ask(self, obj):
         self.p.stdin.write(json.dumps(obj) + '\n')
@@ -175,11 +180,11 @@ class Driver:
             self.p.kill()
 
 
-def driver_batch(queries):
+def driver_batch(prop, queries):
     if not queries:
         return []
     inp = ''.join(json.dumps(q) + '\n' for q in queries)
-    p = subprocess.run([DRIVER_BIN], input=inp, stdout=subprocess.PIPE, text=True)
+    p = subprocess.run([driver_bin(prop)], input=inp, stdout=subprocess.PIPE, text=True)
     lines = p.stdout.splitlines()
     if len(lines) != len(queries):
         raise RuntimeError(f'driver answered {len(lines)} of {len(queries)} lines')
@@ -302,7 +307,7 @@ class Run:
                 self.gen_report = regenerate()
         except Exception as e:
             self.gen_report = {'error': f'{type(e).__name__}: {e}'}
-        ok, log = build_driver()
+        ok, log = build_driver(self.prop)
         self.driver_ok = ok
         if not ok:
             self.extra['driver_build_errors'] = lean_errors(log)
